@@ -1,5 +1,5 @@
 """property -> rules"""
-from . import rules_dd, rules_bounds, rules_limits, rules_tools, rules_conv, rules_handles, rules_access, rules_coders, rules_errors, rules_layout, rules_ann, rules_mem
+from . import rules_dd, rules_bounds, rules_limits, rules_tools, rules_conv, rules_handles, rules_access, rules_coders, rules_errors, rules_layout, rules_ann, rules_mem, rules_sd, rules_cache
 
 CLANG = "clang 14 parser, constant evaluator and CFG builder (via tools/h4x.cc)"
 CDB = "compile flags taken from ninja -t compdb of /repo/_build (or a throw-away cmake configure)"
@@ -202,6 +202,31 @@ PROPS["C01"] = {
     "level_text": "Dispatch-completeness, bookkeeping-sibling and codec checks across all storage kinds: 'holds identically for every storage kind' needs each kind to implement each operation the same way, which tests exercise for one kind at a time.",
     "level_note": "Trusted: clang front end, build flags, the transcribed layouts. The byte-level behaviour of the block walks is out of static reach and not claimed.",
     "technique": "function-table resolution + must-update typestate + AST codec-layout comparison",
+}
+
+PROPS["C03"] = {
+    "rules": [rules_sd.rule_coordck, rules_sd.rule_boundcmp],
+    "level": "other",
+    "explanation": "Decides only the rejection clause of 'hyperslab access behaves as an n-d array': (COORDCK) in the nc/SD data drivers NCvar1io and NCvario every data-transfer call (hdf_xdr_NCvdata / hdf_xdr_NCv1data and their netCDF/CDF siblings) for a non-scalar variable is reached, on every path and in every loop iteration, only after NCcoordck was called and seen to succeed since the previous transfer, and in NCvario only after NCvcmaxcontig accepted the edge lengths; NCsimplerecio, which trusts its caller, is called from NCvario only, after such a check. (BOUNDCMP) inside NCcoordck the comparison of a coordinate with the dimension size sends equality to `return FALSE`, and so does a negative coordinate. Not decided (value-level): offsets (NC_varoffset), the odometer, fill values, record growth, row-major order, persistence across SDend/SDstart.",
+    "rule_text": "instances = transfer call sites and delegations in the drivers (13), the two boundary comparisons of NCcoordck; non-trivial = needed the path-sensitive must-pass-through with call outcome inside loops",
+    "trusted": [CLANG, CDB],
+    "assumptions": ["SDreaddata/SDwritedata reach element I/O only through NCvario/NCvar1io/NCgenio (checked: NCgenio has no transfer call of its own)"],
+    "level_text": "All-paths must-pass-through of the coordinate check before every element transfer: holds for every start/edge vector and every loop iteration, where the tests try a handful of out-of-range requests.",
+    "level_note": "Thin by design: the heart of C03 (which cell, which value) is arithmetic over runtime quantities that no static rule here bounds.",
+    "technique": "path-sensitive must-pass-through (call-outcome typestate) over clang CFGs",
+}
+
+PROPS["C04"] = {
+    "rules": [rules_cache.rule_dirty_on_write, rules_cache.rule_cache_internal, rules_cache.rule_cache_clients,
+              ],
+    "level": "other",
+    "explanation": "Decides the cache-discipline clauses that 'cache size never changes the data' depends on: (K1) every function that copies caller data into a page obtained from mcache_get hands that page back with mcache_put(.., MCACHE_DIRTY) on every non-failing path (aliases chk_dptr = chk_data followed); (K2) mcache_bkt unlinks a page for reuse only on paths where its MCACHE_DIRTY bit was seen clear or mcache_write was seen to succeed; (K3) mcache_write clears MCACHE_DIRTY only after the page-out callback was seen not to fail; (K6) mcache_put ORs the caller's DIRTY flag into the page flags and never clears DIRTY, and BKT.flags is written nowhere outside mcache.c; (K4) every mcache_close is preceded on every path by mcache_sync on the same cache; (K5) every mcache_open is followed by mcache_filter with both page-in and page-out functions. Not decided (value-level, the heart of the property): chunk index arithmetic, partial last chunks, coder x chunk products, n-bit/external/linked-block equivalence.",
+    "rule_text": "instances = mcache_get/mcache_put sites per client function, queue removals in mcache_bkt, the DIRTY clear of mcache_write, flag updates of mcache_put, mcache_close and mcache_open sites",
+    "trusted": [CLANG, CDB],
+    "assumptions": ["chunk data reaches the file only through the cache's page-out callback (HMCPchunkwrite)"],
+    "level_text": "All-paths typestate of cache pages (got / modified / put dirty) and of the eviction path: a dirty page can be neither dropped nor put back clean for any cache size or access order.",
+    "level_note": "Thin by design; see Not decided.",
+    "technique": "typestate dataflow over clang CFGs (cache page states, flush-before-evict, sync-before-close pairing)",
 }
 
 NOT_APPLICABLE = {
